@@ -491,8 +491,10 @@ func main() {
 		}
 		return out
 	}
-	extras := []map[string]interface{}{nil, {"x": 1.5}, {"meta": map[string]interface{}{"a": []interface{}{1.0, nil}, "": "s"}}, {"x": "s", "y": true, "z": nil}}
-	r.Explore("feature-collections", "collections of 0..2 features x 4 foreign-member sets x bbox, JSON and BSON, under every iteration order of the map ranges in package geojson (<= 4 keys)", mc.Opts{MaxDev: ev.Pick(r, 4, 5), Workers: 1}, func(c *mc.Ctx) {
+	extras := []map[string]interface{}{nil, {"x": 1.5}, {"meta": map[string]interface{}{"a": []interface{}{1.0, nil}, "": "s"}}, {"x": "s", "y": true, "z": nil},
+		// names that differ from the reserved ones only by case, and names reserved at other levels
+		{"Type": "custom"}, {"BBox": []interface{}{1.0, 2.0}, "TYPE": 7.0}, {"Features": "none"}, {"geometry": nil, "properties": map[string]interface{}{"a": 1.0}, "id": 3.0, "coordinates": []interface{}{}}}
+	r.Explore("feature-collections", "collections of 0..2 features x 8 foreign-member sets (incl. case variants of the reserved names) x bbox, JSON and BSON, under every iteration order of the map ranges in package geojson (<= 4 keys)", mc.Opts{MaxDev: ev.Pick(r, 4, 5), Workers: 1}, func(c *mc.Ctx) {
 		fc := geojson.NewFeatureCollection()
 		for i, k := 0, c.Choose(3); i < k; i++ {
 			fc.Append(genFeature(c))
